@@ -220,14 +220,28 @@ func (env *SpecEnv) pkgObject(pkg *types.Package, obj types.Object) (sval, error
 		for _, sp := range e.P.SSAPkgs {
 			if sp.Pkg == pkg {
 				if g, ok := sp.Members[o.Name()].(*ssa.Global); ok {
-					return sval{env.f.loadGlobal(g, env.cur), o.Type()}, nil
+					t := env.f.loadGlobal(g, env.cur)
+					if _, isMap := o.Type().Underlying().(*types.Map); isMap && immutableMapGlobal(e.P, g) != nil {
+						if e.gmTerms == nil {
+							e.gmTerms = map[string]*ssa.Global{}
+						}
+						e.gmTerms[t.S] = g
+					}
+					return sval{t, o.Type()}, nil
 				}
 			}
 		}
 		// imported package global
 		if sp := e.P.SSA.Package(pkg); sp != nil {
 			if g, ok := sp.Members[o.Name()].(*ssa.Global); ok {
-				return sval{env.f.loadGlobal(g, env.cur), o.Type()}, nil
+				t := env.f.loadGlobal(g, env.cur)
+				if _, isMap := o.Type().Underlying().(*types.Map); isMap && immutableMapGlobal(e.P, g) != nil {
+					if e.gmTerms == nil {
+						e.gmTerms = map[string]*ssa.Global{}
+					}
+					e.gmTerms[t.S] = g
+				}
+				return sval{t, o.Type()}, nil
 			}
 		}
 	}
@@ -421,6 +435,10 @@ func (env *SpecEnv) index(x *SExpr) (sval, error) {
 	}
 	if mt, ok := a.typ.Underlying().(*types.Map); ok {
 		ks, vs := e.U.sortOf(mt.Key(), false), e.U.sortOf(mt.Elem(), false)
+		if g := e.immutableMapOfTerm(a.t); g != nil {
+			_, v := env.f.globalMapLookup(g, i.t, ks, vs, mt)
+			return sval{v, mt.Elem()}, nil
+		}
 		valArr := e.family(env.cur, mapValFam(ks, vs), arraySort(SInt, arraySort(ks, vs)))
 		return sval{sel(sel(valArr, a.t, arraySort(ks, vs)), i.t, vs), mt.Elem()}, nil
 	}
@@ -629,6 +647,10 @@ func (env *SpecEnv) call(x *SExpr) (sval, error) {
 		if !ok {
 			return sval{}, fmt.Errorf("has() on non-map")
 		}
+		if g := e.immutableMapOfTerm(m.t); g != nil {
+			h, _ := env.f.globalMapLookup(g, k.t, e.U.sortOf(mt.Key(), false), e.U.sortOf(mt.Elem(), false), mt)
+			return sval{h, types.Typ[types.Bool]}, nil
+		}
 		ks, vs := e.U.sortOf(mt.Key(), false), e.U.sortOf(mt.Elem(), false)
 		hasArr := e.family(env.cur, mapHasFam(ks, vs), arraySort(SInt, arraySort(ks, SBool)))
 		return sval{and(not(eq(m.t, intLit(0))), sel(sel(hasArr, m.t, arraySort(ks, SBool)), k.t, SBool)), types.Typ[types.Bool]}, nil
@@ -794,6 +816,16 @@ func (env *SpecEnv) call(x *SExpr) (sval, error) {
 		}
 		e.U.declareFun("rx.nsub", []Sort{SInt}, SInt)
 		return sval{app(SInt, "rx.nsub", v.t), types.Typ[types.Int]}, nil
+	case "rsrc", "rpos":
+		// ghost state of a strings.Reader: the string it reads and how far it is
+		r, err := env.eval(args[0])
+		if err != nil {
+			return sval{}, err
+		}
+		if fnx.Name == "rsrc" {
+			return sval{sel(e.family(env.cur, "Reader.src", arraySort(SInt, SStr)), r.t, SStr), types.Typ[types.String]}, nil
+		}
+		return sval{sel(e.family(env.cur, "Reader.pos", arraySort(SInt, SInt)), r.t, SInt), types.Typ[types.Int]}, nil
 	case "content":
 		// abstract content of a strings.Builder reference
 		b, err := env.eval(args[0])
@@ -1025,7 +1057,7 @@ func (f *Frame) resolverAtPoint(blk *ssa.BasicBlock, idx int, phiEnv map[*ssa.Ph
 			for _, b := range f.fn.Blocks {
 				for _, in := range b.Instrs {
 					if x, ok := in.(*ssa.DebugRef); ok && !x.IsAddr && x.Object() != nil && x.Object().Name() == want {
-						if v, isVar := x.Object().(*types.Var); isVar && !v.IsField() {
+						if v, isVar := x.Object().(*types.Var); isVar && !v.IsField() && (v.Pkg() == nil || v.Parent() != v.Pkg().Scope()) {
 							t := f.e.declare(f.pfx+"undef."+want, f.e.sortOf(x.X.Type()))
 							return t, x.X.Type(), true
 						}
@@ -1195,4 +1227,26 @@ func declareBoundary(u *Universe) {
 	u.axiom("(assert (forall ((s Str)) (! (boundary s 0) :pattern ((boundary s 0)))))", "boundary")
 	u.axiom("(assert (forall ((s Str) (p Int)) (! (=> (and (boundary s p) (<= 0 p) (< p (slen s))) (boundary s (+ p (width_at s p)))) :pattern ((width_at s p)))))", "boundary")
 	u.axiom("(assert (forall ((s Str) (p Int) (q Int)) (! (=> (and (boundary s p) (< p q) (< q (+ p (width_at s p)))) (not (boundary s q))) :pattern ((boundary s q) (width_at s p)))))", "boundary")
+}
+
+// immutableMapOfTerm: the term is the (constant) value of a package-level map
+// that only its initialiser writes; such maps are modelled by functions
+// axiomatised from the initialiser (globalmap.go).
+func (e *Enc) immutableMapOfTerm(t Term) *ssa.Global {
+	if g := e.gmTerms[t.S]; g != nil {
+		return g
+	}
+	if !strings.HasPrefix(t.S, "g.") {
+		return nil
+	}
+	for _, sp := range e.P.SSAPkgs {
+		for _, m := range sp.Members {
+			if g, ok := m.(*ssa.Global); ok && "g."+sanitize(g.Pkg.Pkg.Name()+"."+g.Name()) == t.S {
+				if _, isMap := g.Type().Underlying().(*types.Pointer).Elem().Underlying().(*types.Map); isMap {
+					return immutableMapGlobal(e.P, g)
+				}
+			}
+		}
+	}
+	return nil
 }
